@@ -1,6 +1,223 @@
-//! C14 — not implemented yet.
-use crate::core::Ctx;
-use serde_json::Value;
+//! C14 — the CORS fang applies the configured policy to every response and preflight (DESIGN §5 C14).
+//!
+//! configuration = policy × route set (with method subsets) × declaration shape × registration order;
+//! requests = simple requests with every method on hit / miss paths + preflights with every requested
+//! method (and with/without requested headers).  Oracle: reference CORS model fed with the policy and
+//! the route table (union of the methods registered anywhere for a route).
 
-pub fn run(ctx: &mut Ctx) { ctx.machinery_error("C14 engine not implemented".into()); }
-pub fn replay(ctx: &mut Ctx, _case: &Value) { ctx.machinery_error("C14 engine not implemented".into()); }
+use crate::app;
+use crate::appgen::{self, AppDesc, CorsDesc, FangDesc};
+use crate::core::{combinations, Ctx};
+use crate::engines::c01::{all_routes, orders, route_str, shapes, RouteSpec};
+use crate::refmodel::http::ParsedResponse;
+use crate::refmodel::router::{admissible, is_param, Entry, Match};
+use serde_json::{json, Value};
+use std::collections::BTreeSet;
+
+const ORIGIN: &str = "https://o.example";
+const FIVE: [&str; 5] = ["GET", "PUT", "POST", "PATCH", "DELETE"];
+
+pub fn policies() -> Vec<CorsDesc> {
+    let mut v = vec![];
+    for origin in ["*", ORIGIN] { for credentials in [false, true] { for ah in [0usize, 2] { for eh in [0usize, 1] { for ma in [None, Some(600u32)] {
+        v.push(CorsDesc { origin: origin.into(), credentials,
+            allow_headers: ["Content-Type", "X-Custom"][..ah].iter().map(|s| s.to_string()).collect(),
+            expose_headers: ["X-Exposed"][..eh].iter().map(|s| s.to_string()).collect(), max_age: ma });
+    } } } } }
+    v
+}
+
+fn list(v: Option<&str>) -> Option<BTreeSet<String>> {
+    v.map(|s| s.split(',').map(|x| x.trim().to_string()).filter(|x| !x.is_empty()).collect())
+}
+
+struct Req { method: &'static str, path: String, acrm: Option<&'static str>, acrh: Option<&'static str> }
+
+fn requests(set: &[RouteSpec]) -> Vec<Req> {
+    let mut paths: Vec<String> = vec!["/".into(), "/zz".into()];
+    for r in set {
+        let inst: Vec<String> = r.segs.iter().map(|s| if is_param(s) { "v".to_string() } else { s.clone() }).collect();
+        for k in 1..=inst.len() { let p: String = inst[..k].iter().map(|s| format!("/{s}")).collect(); if !paths.contains(&p) { paths.push(p) } }
+        if !inst.is_empty() { let p: String = inst.iter().map(|s| format!("/{s}")).collect::<String>() + "/zz"; if !paths.contains(&p) { paths.push(p) } }
+    }
+    let mut out = vec![];
+    for p in &paths {
+        for m in ["GET", "PUT", "POST", "PATCH", "DELETE", "HEAD", "OPTIONS"] { out.push(Req { method: m, path: p.clone(), acrm: None, acrh: None }) }
+        for acrm in ["GET", "PUT", "POST", "PATCH", "DELETE", "HEAD", "OPTIONS", "FOO"] { for acrh in [None, Some("X-Req, X-Other")] {
+            out.push(Req { method: "OPTIONS", path: p.clone(), acrm: Some(acrm), acrh })
+        } }
+    }
+    out
+}
+
+/// route (as string) that the path denotes, by the all-routes reading; None = open (greedy vs backtracking differ)
+fn route_at(set: &[RouteSpec], path: &str) -> Option<Option<Vec<String>>> {
+    let table: Vec<Entry> = set.iter().map(|r| Entry { segs: r.segs.clone(), method: "ANY".into(), hid: route_str(&r.segs) }).collect();
+    let adm = admissible(&table, "ANY", path);
+    if adm.len() != 1 { return None }
+    Some(match adm.into_iter().next().unwrap() {
+        Match::Handler { hid, .. } => Some(appgen::split_route(&hid)),
+        Match::NoHandler => None,
+    })
+}
+
+fn norm(segs: &[String]) -> Vec<String> { segs.iter().map(|s| if is_param(s) { ":".into() } else { s.clone() }).collect() }
+
+fn shape_kind(shape: &str) -> &'static str {
+    if shape == "flat" { "flat" } else if shape == "split" { "split" } else if shape == "split-mount" { "split-mount" } else if shape == "inline" { "inline" } else { "mounted" }
+}
+
+fn check_response(ctx: &mut Ctx, policy: &CorsDesc, set: &[RouteSpec], shape: &str, desc: &AppDesc, r: &Req, p: &ParsedResponse) {
+    let kind = shape_kind(shape);
+    let reqkind = if r.acrm.is_some() { "preflight" } else if r.method == "OPTIONS" { "options" } else { "simple" };
+    let mut problems: Vec<String> = vec![];
+    // --- every response ---
+    if p.header_all("Access-Control-Allow-Origin") != vec![policy.origin.as_str()] { problems.push("allow-origin".into()) }
+    let want_cred = policy.credentials && policy.origin != "*";
+    let cred = p.header_all("Access-Control-Allow-Credentials");
+    if want_cred && cred != vec!["true"] { problems.push("allow-credentials:missing".into()) }
+    if !want_cred && !cred.is_empty() { problems.push("allow-credentials:extra".into()) }
+    let want_expose: BTreeSet<String> = policy.expose_headers.iter().cloned().collect();
+    let got_expose = list(p.header("Access-Control-Expose-Headers")).unwrap_or_default();
+    if want_expose != got_expose { problems.push("expose-headers".into()) }
+
+    // --- preflight ---
+    let mut ambiguous = false;
+    let mut collision = false;
+    if let Some(acrm) = r.acrm {
+        match route_at(set, &r.path) {
+            None => ambiguous = true,
+            Some(route) => {
+                let registered: BTreeSet<&str> = match &route {
+                    Some(rt) => set.iter().filter(|x| norm(&x.segs) == norm(rt)).flat_map(|x| x.methods.iter().map(|m| m.as_str())).collect(),
+                    None => BTreeSet::new(),
+                };
+                collision = registered.len() >= 2;
+                if acrm == "OPTIONS" && !registered.is_empty() { ambiguous = true }
+                let should_succeed = match acrm { "HEAD" => registered.contains("GET"), m => registered.contains(m) };
+                if !ambiguous {
+                    let ok2xx = (200..300).contains(&p.status);
+                    if should_succeed {
+                        if !ok2xx { problems.push(format!("preflight:refused({})-should-succeed", p.status)) }
+                        else {
+                            if !p.body.is_empty() { problems.push("preflight:body".into()) }
+                            let mut want: BTreeSet<String> = registered.iter().map(|s| s.to_string()).collect();
+                            if registered.contains("GET") { want.insert("HEAD".into()); }
+                            want.insert("OPTIONS".into());
+                            let got = list(p.header("Access-Control-Allow-Methods")).unwrap_or_default();
+                            if got != want {
+                                let missing = want.difference(&got).count(); let extra = got.difference(&want).count();
+                                problems.push(format!("preflight:allow-methods:{}{}", if missing > 0 { "missing" } else { "" }, if extra > 0 { "extra" } else { "" }));
+                            }
+                            let got_ah = list(p.header("Access-Control-Allow-Headers"));
+                            if !policy.allow_headers.is_empty() {
+                                if got_ah != Some(policy.allow_headers.iter().cloned().collect()) { problems.push("preflight:allow-headers:configured".into()) }
+                            } else if let Some(h) = r.acrh {
+                                if got_ah != list(Some(h)) { problems.push("preflight:allow-headers:echo".into()) }
+                            }
+                            match (policy.max_age, p.header("Access-Control-Max-Age")) {
+                                (Some(m), Some(g)) if g == m.to_string() => {}
+                                (None, None) => {}
+                                _ => problems.push("preflight:max-age".into()),
+                            }
+                        }
+                    } else if !(400..500).contains(&p.status) {
+                        problems.push(format!("preflight:status({})-should-be-4xx", p.status));
+                    }
+                }
+            }
+        }
+    }
+    let witness = || json!({"policy": policy, "set": set.iter().map(|x| json!({"route": route_str(&x.segs), "methods": x.methods})).collect::<Vec<_>>(),
+        "shape": shape, "app": desc, "method": r.method, "path": r.path, "acrm": r.acrm, "acrh": r.acrh,
+        "observed_status": p.status, "observed_headers": p.headers.iter().filter(|(k, _)| k.starts_with("Access-Control") || k == "Vary").collect::<Vec<_>>(), "problems": problems});
+    if !problems.is_empty() {
+        for pr in &problems { ctx.violation(&format!("C14/{kind}/{reqkind}/{pr}"), true, witness); }
+        // a case counts once
+        ctx.evaluations -= problems.len() as u64 - 1;
+    } else if ambiguous {
+        ctx.ambiguous(&format!("{reqkind}:{}", p.status));
+    } else {
+        ctx.pass(&format!("{reqkind}:{}:{}", p.status, if r.acrm.is_some() { "pf" } else { "-" }), reqkind != "simple" || p.status != 404, collision);
+    }
+}
+
+fn check_set(ctx: &mut Ctx, policy: &CorsDesc, set: &[RouteSpec], only_shape: Option<&str>, only: Option<&Req>) {
+    let reqs_all = requests(set);
+    for (name, desc) in shapes(set) {
+        if let Some(s) = only_shape { if s != name { continue } }
+        for (oi, mut d) in orders(&desc, false).into_iter().enumerate() {
+            if oi > 1 && !name.starts_with("split") { continue }
+            d.fangs = vec![FangDesc::Cors(policy.clone())];
+            let router = match appgen::build(&d) { Ok(r) => r, Err(_) => { ctx.skip(); continue } };
+            ctx.states += 1;
+            let reqs: Vec<&Req> = match only { Some(r) => vec![r], None => reqs_all.iter().collect() };
+            for r in reqs {
+                ctx.transitions += 1;
+                let mut headers: Vec<(&str, &str)> = vec![("Host", "h"), ("Origin", "https://any.example")];
+                if let Some(m) = r.acrm { headers.push(("Access-Control-Request-Method", m)) }
+                if let Some(h) = r.acrh { headers.push(("Access-Control-Request-Headers", h)) }
+                let out = app::oneshot(&router, &app::request(r.method, &r.path, &headers, b""));
+                match out.parsed() {
+                    Some(p) => check_response(ctx, policy, set, &name, &d, r, p),
+                    None => ctx.violation(&format!("C14/{}/broken:{}", shape_kind(&name), out.kind()), true,
+                        || json!({"policy": policy, "set": set.iter().map(|x| json!({"route": route_str(&x.segs), "methods": x.methods})).collect::<Vec<_>>(), "shape": name, "app": d, "method": r.method, "path": r.path, "acrm": r.acrm, "acrh": r.acrh, "observed": out.kind()})),
+                }
+            }
+            ctx.sample(|| json!({"policy": policy, "app": d, "requests": reqs_all.len()}));
+        }
+    }
+}
+
+pub fn run(ctx: &mut Ctx) {
+    app::pin_clock();
+    let quick = ctx.quick();
+    let pols = policies();
+    let routes = all_routes(2);
+    // single routes with all 31 method subsets (quick: one policy per (route, subset), rotating through all 32; thorough: all policies)
+    for (ri, r) in routes.iter().enumerate() {
+        for mask in 1u32..32 {
+            for (pi, pol) in pols.iter().enumerate() {
+                if quick && pi != (ri * 31 + mask as usize) % pols.len() { continue }
+                if !ctx.mine() { continue }
+                if ctx.out_of_time() { return }
+                let methods: Vec<String> = FIVE.iter().enumerate().filter(|(i, _)| mask & (1 << i) != 0).map(|(_, m)| m.to_string()).collect();
+                check_set(ctx, pol, &[RouteSpec { segs: r.clone(), methods }], None, None);
+            }
+        }
+    }
+    // pairs with a menu of method subsets (quick: one rotating policy per set; thorough: 8 policies per set)
+    let menu: Vec<Vec<&str>> = vec![vec!["GET"], vec!["POST"], vec!["GET", "POST"], vec!["PUT", "DELETE"], vec!["GET", "PUT", "POST", "PATCH", "DELETE"]];
+    let mut k = 0usize;
+    for combo in combinations(routes.len(), 2) {
+        for (ai, a) in menu.iter().enumerate() { for (bi, b) in menu.iter().enumerate() {
+            if quick && (ai + bi) % 2 == 1 { continue }
+            k += 1;
+            for (pi, pol) in pols.iter().enumerate() {
+                if quick && pi != k % pols.len() { continue }
+                if !quick && pi % 4 != k % 4 { continue }
+                if !ctx.mine() { continue }
+                if ctx.out_of_time() { return }
+                let set = vec![RouteSpec { segs: routes[combo[0]].clone(), methods: a.iter().map(|s| s.to_string()).collect() },
+                               RouteSpec { segs: routes[combo[1]].clone(), methods: b.iter().map(|s| s.to_string()).collect() }];
+                check_set(ctx, pol, &set, None, None);
+            }
+        } }
+    }
+    ctx.extra.insert("rule".into(), json!("case = (policy, route set with method subsets, declaration shape, registration order, request); non-trivial = a preflight, an OPTIONS request or a non-404 simple request; collision = a preflight to a route for which two or more methods are registered (the allowed-method list is assembled per registration and overridden on merge, so several registrations for one route are what can go wrong)"));
+    ctx.extra.insert("bounds".into(), json!({"policies": pols.len(), "routes": "depth<=2 over {a,ab,b,:p}", "single-route method subsets": "all 31", "policies per single-route set": if quick { "1 (rotating through all 32)" } else { "all 32" },
+        "pair method menu": menu, "policies per pair set": if quick { "1 (rotating)" } else { "8 (rotating)" }, "shapes": "as C01 (flat, split, mount1, mount2, nested, inline, mount-one), first two orders (all orders for split)",
+        "requests": "7 methods + 16 preflight variants on every route instance, every proper prefix of it, one path below it, / and /zz"}));
+    ctx.traces_validated = ctx.transitions;
+}
+
+pub fn replay(ctx: &mut Ctx, case: &Value) {
+    app::pin_clock();
+    let policy: CorsDesc = serde_json::from_value(case["policy"].clone()).expect("policy");
+    let set: Vec<RouteSpec> = case["set"].as_array().unwrap().iter().map(|r| RouteSpec {
+        segs: appgen::split_route(r["route"].as_str().unwrap()),
+        methods: r["methods"].as_array().unwrap().iter().map(|m| m.as_str().unwrap().to_string()).collect() }).collect();
+    fn st(s: Option<&str>) -> Option<&'static str> { s.map(|x| &*Box::leak(x.to_string().into_boxed_str())) }
+    let r = Req { method: st(case["method"].as_str()).unwrap_or("GET"), path: case["path"].as_str().unwrap_or("/").to_string(), acrm: st(case["acrm"].as_str()), acrh: st(case["acrh"].as_str()) };
+    check_set(ctx, &policy, &set, case["shape"].as_str(), Some(&r));
+}
